@@ -453,8 +453,8 @@ func c21RunConcOnce(c *c21Conc, watchdog time.Duration) (c21ConcResult, string) 
 	}
 	endErr := c21Errs[c.Err]
 	acks := make(chan int, len(c.Writes)*(c.Cap+2)+16) // reader -> writer: bytes consumed (window updates)
-	fire := make(chan struct{})                       // writer -> closer
-	var mu sync.Mutex                                 // protects res.problem
+	fire := make(chan struct{})                        // writer -> closer
+	var mu sync.Mutex                                  // protects res.problem
 	setProblem := func(k, f string, a ...any) {
 		mu.Lock()
 		if res.problem == "" {
@@ -662,6 +662,18 @@ func c21GenConc(rt *rapid.T) *c21Conc {
 
 func TestC21(t *testing.T) {
 	rec := ev.New("C21", "sequential: 1..40 ops (write 0..cap+2 bytes, read 0..cap+2, CloseWithError/CloseWithErrorAndCode/BreakWithError with EOF|A|B, Release, next pipe from the same pool, Err/Done) on NewPipeWithSize(1..24) or pooled pipes, against a byte-queue model; blocking reads are only issued when the model has data/closure. concurrent: writer (window-limited like h2 flow control) + reader + closer goroutines with generated chunk/yield plans under -race; a hang is reported only as a proven deadlock (all goroutines of the case parked), slowness is inconclusive. non-trivial: a write slides unread data (r>0) or a close arrives with buffered data; every concurrent case; distinct by op list")
+	if w := replayWitness(t); w != nil {
+		if w["concurrent"] != nil {
+			c := &c21Conc{}
+			replayInto(t, w["concurrent"], c)
+			c21CheckConc(t, t, rec, c)
+		} else {
+			c := &c21Case{}
+			replayInto(t, w["case"], c)
+			c21RunSeq(t, rec, c, "replay")
+		}
+		return
+	}
 	// deterministic scenarios
 	for _, pooled := range []bool{false, true} {
 		c21RunSeq(t, rec, &c21Case{Cap: 8, Pooled: pooled, Ops: []c21Op{{Op: "write", N: 6}, {Op: "read", N: 4}, {Op: "write", N: 5}, {Op: "read", N: 20}, {Op: "write", N: 8}, {Op: "write", N: 1}, {Op: "close", Err: "A"}, {Op: "read", N: 3}, {Op: "err"}, {Op: "read", N: 9}, {Op: "read", N: 1}, {Op: "release"}, {Op: "read", N: 1}, {Op: "write", N: 1}, {Op: "newpipe"}, {Op: "write", N: 2}, {Op: "read", N: 8}}}, "scenario")
